@@ -4067,6 +4067,15 @@ fn oracle_c05(fields: &[&str]) -> String {
         if !((x - extra[0]).abs() < tol && (y - extra[1]).abs() < tol) {
             return format!("oracle FAIL {def}: the projection centre ({}, {}) maps to ({x}, {y}), not to the false origin ({}, {})", p[0], p[1], extra[0], extra[1]);
         }
+        // ... and the false origin maps (back) to the projection centre
+        let mut back = [Coor4D([extra[0], extra[1], 0.0, 0.0])];
+        let n = ctx.apply(op, Inv, &mut back).unwrap_or(0);
+        let (lon, lat) = (back[0][0], back[0][1]);
+        let at_pole = (p[1].abs() - std::f64::consts::FRAC_PI_2).abs() < 1e-9;
+        let dlon = if at_pole { 0.0 } else { ((lon - p[0]) / std::f64::consts::TAU - ((lon - p[0]) / std::f64::consts::TAU).round()) * std::f64::consts::TAU };
+        if n != 1 || !(dlon.abs() < 1e-9) || !((lat - p[1]).abs() < 1e-9) {
+            return format!("oracle FAIL {def}: the false origin ({}, {}) maps back to ({lon}, {lat}) ({n} counted), not to the projection centre ({}, {})", extra[0], extra[1], p[0], p[1]);
+        }
         return "oracle pass".to_string();
     }
     if kind == "tmerc-meridian" {
